@@ -131,10 +131,12 @@ def c20(res: Result):
     # deep diagrams with percolation shortcuts: many single-node expansions in random order
     tasks += feature_tasks("f", None, kinds=["shortcut", "shortcut2", "deep", "modules"], max_n=6, rng=rng,
                            hist=(["exp", "exp", "exp", "exp", "bfs", "dfs", "skipmin"], (6, 14), [], 4 if q else 20))
-    tasks += gadget_tasks("gs", [[{"op": "build"}, {"op": "summary"}], [{"op": "bfs", "n": 1, "lvl": 0, "size": -1}, {"op": "allseeds"}, {"op": "summary"}]])
+    tasks += gadget_tasks("gs", [[{"op": "build"}, {"op": "summary"}, {"op": "api"}],
+                                 [{"op": "bfs", "n": 1, "lvl": 0, "size": -1}, {"op": "allseeds"}, {"op": "summary"}, {"op": "api"}],
+                                 [{"op": "exp", "n": 1}, {"op": "api"}, {"op": "skiprem"}, {"op": "api"}, {"op": "scc", "maa": True}, {"op": "api"}]])
     # find_node / summary / is_subgraph / is_isomorphic
-    tasks += random_tasks(rng, N(q, 400, 5000), [2, 3, 3, 4, 4, 5], ["exp", "bfs", "dfs", "min", "skipmin", "seeds", "find", "find", "find", "cmp", "cmp", "summary"],
-                          (3, 8), "q", tail=[{"op": "build"}, {"op": "summary"}, {"op": "cmp", "cmpops": [FULL_BFS]}])
+    tasks += random_tasks(rng, N(q, 400, 5000), [2, 3, 3, 4, 4, 5], ["exp", "bfs", "dfs", "min", "skipmin", "seeds", "find", "find", "find", "cmp", "cmp", "summary", "api", "api"],
+                          (3, 8), "q", tail=[{"op": "build"}, {"op": "summary"}, {"op": "api"}, {"op": "cmp", "cmpops": [FULL_BFS]}])
     tasks += feature_tasks("fs", [[{"op": "build"}, {"op": "summary"}], [FULL_BFS, {"op": "allseeds"}, {"op": "summary"}],
                                   [{"op": "exp", "n": 1}, {"op": "cmp", "cmpops": [FULL_BFS]}, {"op": "cmp", "cmpops": []}, {"op": "cmp", "cmpops": [{"op": "exp", "n": 1}]}]])
     invs = ["Inv_PROJ", "Inv_DepthExact", "Inv_IndexExact", "Inv_QUERY", "Inv_C01"]
@@ -143,7 +145,8 @@ def c20(res: Result):
                        "len() = count on the logged state. find_node queries (existing spaces, proper sub/superspaces, random spaces), parsed "
                        "summary() texts (node count, depth, one entry per node with seeds, label minimal iff the node has no successors; after "
                        "build() every attractor exactly once) and is_subgraph / is_isomorphic between the diagram and a second diagram of the same "
-                       "network expanded by other calls are compared with their definitions over the logged projections. _ensure_edge is also driven "
+                       "network expanded by other calls are compared with their definitions over the logged projections; the read-only accessors (root, len, depth, "
+                       "node / stub / expanded ids, minimal_trap_spaces, node_is_minimal, node_successors, plain and reduced edge motifs) are recomputed in one bundle (op 'api'). _ensure_edge is also driven "
                        "from arbitrary DAG states with exact depths (DepthTrace). Non-trivial: distinct (network, history) reaching a node with two parents or depth >= 2.")
 
     def nt(tr):
